@@ -15,6 +15,7 @@ import (
 	"strings"
 	"sync"
 
+	"github.com/Eyevinn/mp4ff/aac"
 	"github.com/Eyevinn/mp4ff/avc"
 	"github.com/Eyevinn/mp4ff/bits"
 	"github.com/Eyevinn/mp4ff/internal/vsim/sim"
@@ -47,7 +48,9 @@ var c20SetupDirty bool
 
 func c20Fingerprint() string {
 	rd, sr, sge := mp4.VsimDecoderKeys()
-	return fmt.Sprint(rd, sr, sge, len(mp4.PrftFlagsInterpretation), len(mp4.CustomChannelMapLocations))
+	return fmt.Sprint(rd, sr, sge, len(mp4.PrftFlagsInterpretation), len(mp4.CustomChannelMapLocations),
+		mp4.AC3SampleRates, mp4.AC3acmodChannelTable, mp4.AC3BitrateCodesKbps, mp4.EC3ChannelLocationBits,
+		len(aac.FrequencyTable), len(aac.ReverseFrequencies))
 }
 
 func c20Setup() error {
